@@ -1653,8 +1653,12 @@ func (w *transformingWriter) Write(data []byte) (n int, err error) {
 
 func (w *transformingWriter) Close() error {
 	if w.expectingBytes == -1 {
-		if err := w.flushMessage(); err != nil {
-			w.rw.reportError(err)
+		// nothing may follow the end of the RPC: if an error was already reported,
+		// the buffered message must not be flushed after it
+		if !w.rw.endWritten {
+			if err := w.flushMessage(); err != nil {
+				w.rw.reportError(err)
+			}
 		}
 	} else if w.buffer != nil && w.buffer.Len() > 0 {
 		// Unfinished body!
